@@ -8,7 +8,7 @@ use crate::json::J;
 use crate::move_gen::MoveGenerator;
 use crate::par::par_map;
 use crate::props::posprops::{setup, PosCheck, Which};
-use crate::refchess::Pos;
+use crate::refchess::{Mv, Pos};
 use crate::report::Report;
 use crate::roots;
 use std::cell::RefCell;
@@ -37,6 +37,10 @@ thread_local! {
 }
 
 struct EvalCheck<'a> {
+    /// model positions of the exploration's roots (to find the move path of a board whose score
+    /// depends on how it was reached)
+    root_positions: Vec<Pos>,
+    path_searches: AtomicU64,
     nav: PosCheck<'a>,
     rep: &'a Report,
     states: AtomicU64,
@@ -45,6 +49,68 @@ struct EvalCheck<'a> {
     max_abs: AtomicI64,
     distinct_scores: Mutex<std::collections::HashSet<i32>>,
     samples: Mutex<Vec<J>>,
+}
+
+/// Shortest move path (rules model) from one of `roots` to the position with this four-field FEN.
+fn path_from_roots(roots: &[Pos], fen4: &str, max: usize) -> Option<(String, Vec<Mv>)> {
+    for r in roots {
+        if r.fen4() == fen4 {
+            return Some((r.fen(0, 1), vec![]));
+        }
+    }
+    for r in roots {
+        // depth-first with iterative bound: the trees are small (max <= 4)
+        fn dfs(p: &Pos, target: &str, left: usize, path: &mut Vec<Mv>) -> bool {
+            if left == 0 {
+                return false;
+            }
+            for m in p.legal_moves() {
+                let n = p.make(m);
+                path.push(m);
+                if n.fen4() == target || dfs(&n, target, left - 1, path) {
+                    return true;
+                }
+                path.pop();
+            }
+            false
+        }
+        for bound in 1..=max {
+            let mut path = Vec::new();
+            if dfs(r, fen4, bound, &mut path) {
+                return Some((r.fen(0, 1), path));
+            }
+        }
+    }
+    None
+}
+
+/// Replay: the root set up from its FEN, the moves played by the real make_move, the score of the
+/// board so reached against the score of the same position set up from its FEN.
+pub fn replay_path(root: &str, moves: &str) -> i32 {
+    let p0 = Pos::from_fen(root).unwrap();
+    let mut b = eng::board_of(&p0).unwrap();
+    let mut p = p0;
+    for t in moves.split_whitespace() {
+        let m = Mv::parse(t).unwrap();
+        let ms = crate::eng::tl_mg().generate_moves(&b);
+        match ms.iter().find(|x| x.to_algebraic() == t) {
+            Some(em) => b = b.clone_with_move(em),
+            None => {
+                println!("REPLAY-OK C14 path: move {} is not generated (another property's business)", t);
+                return 0;
+            }
+        }
+        p = p.make(m);
+    }
+    let reached = eval_fresh(&b);
+    let rebuilt = eng::board_of(&p).map_err(|e| e.to_string()).and_then(|x| eval_fresh(&x));
+    if reached == rebuilt {
+        println!("REPLAY-OK C14 path {} [{}]", root, moves);
+        0
+    } else {
+        println!("REPLAY-VIOLATION C14 path {} [{}]: the board reached by the moves and the board set up from its FEN score differently", root, moves);
+        1
+    }
 }
 
 fn eval_fresh(b: &Board) -> Result<i32, String> {
@@ -57,6 +123,10 @@ impl<'a> EvalCheck<'a> {
     }
 
     fn check(&self, b: &Board, p: &Pos) {
+        self.check_at(b, p, 4)
+    }
+
+    fn check_at(&self, b: &Board, p: &Pos, depth: usize) {
         self.states.fetch_add(1, Ordering::Relaxed);
         let fen = p.fen4();
         crate::crumb::set(&["c14-one", "--fen", &fen]);
@@ -67,6 +137,36 @@ impl<'a> EvalCheck<'a> {
                 return;
             }
         };
+        // the board itself must not carry anything the score depends on besides placement and
+        // side to move: the same position set up from its FEN scores the same as this board,
+        // which was reached by real moves from a root
+        if let Ok(rebuilt) = eng::board_of(p) {
+            let v = eval_fresh(&rebuilt);
+            if v != Ok(fresh) {
+                let n = self.path_searches.fetch_add(1, Ordering::Relaxed);
+                let path = if n < 2 { path_from_roots(&self.root_positions, &fen, depth.min(4)) } else { None };
+                self.rep.violation(
+                    format!("C14 fen={} depends-on-the-way-the-board-was-reached", fen),
+                    format!(
+                        "evaluate of the board reached by real moves{} = {}, but the same position set up from its FEN {:?} scores {:?}: the score depends on more than placement and side to move",
+                        match &path {
+                            Some((r, m)) => format!(" [{}] from {:?}", m.iter().map(|x| x.uci()).collect::<Vec<_>>().join(" "), r),
+                            None => String::new(),
+                        },
+                        fresh,
+                        fen,
+                        v
+                    ),
+                    match path {
+                        Some((r, m)) => vec!["c14-path".into(), "--root".into(), r, "--moves".into(), m.iter().map(|x| x.uci()).collect::<Vec<_>>().join(" ")],
+                        None => vec![],
+                    },
+                    J::Null,
+                );
+                // everything below compares with boards set up from FENs and would only repeat this
+                return;
+            }
+        }
         // purity, deterministic form: an evaluator that has just evaluated a very different
         // position (start position, 18 queens, bare kings) must give the same score
         let mut impure = false;
@@ -147,9 +247,9 @@ impl<'a> EvalCheck<'a> {
 }
 
 impl<'a> Visitor for EvalCheck<'a> {
-    fn visit(&self, b: &Board, _d: usize) -> Vec<(Board, u64)> {
+    fn visit(&self, b: &Board, d: usize) -> Vec<(Board, u64)> {
         if let Ok(p) = eng::pos_of(b) {
-            self.check(b, &p);
+            self.check_at(b, &p, d);
         }
         self.nav.check_state(b)
     }
@@ -193,7 +293,9 @@ pub fn run(tier: &str, seed: u64, out: &str) {
         std::process::exit(2);
     }
     let mg = MoveGenerator::new();
-    let ec = EvalCheck {
+    let mut ec = EvalCheck {
+        root_positions: Vec::new(),
+        path_searches: AtomicU64::new(0),
         nav: PosCheck::new(crate::eng::tl_mg(), &rep, Which::Nav),
         rep: &rep,
         states: AtomicU64::new(0),
@@ -220,6 +322,7 @@ pub fn run(tier: &str, seed: u64, out: &str) {
             std::process::exit(2);
         }
     }
+    ec.root_positions = root_boards.iter().filter_map(|(b, _)| eng::pos_of(b).ok()).collect();
     let depth = if thorough { 4 } else { 3 };
     let gs = explore(&root_boards, depth, if thorough { 60_000_000 } else { 6_000_000 }, &ec);
     if gs.capped {
@@ -346,6 +449,8 @@ pub fn replay_one(fen: &str) -> i32 {
     let rep = Report::new("C14", "quick", 0);
     let mg = MoveGenerator::new();
     let ec = EvalCheck {
+        root_positions: Vec::new(),
+        path_searches: AtomicU64::new(0),
         nav: PosCheck::new(crate::eng::tl_mg(), &rep, Which::Nav),
         rep: &rep,
         states: AtomicU64::new(0),
